@@ -27,13 +27,15 @@ MAXM_EXH = {"quick": 4, "thorough": 5}
 
 
 def shards(tier, seed):
-    return split_shards("random", N[tier], 16 if tier == "quick" else 32)
+    # Mean on entries close to the largest finite number: the average of finite numbers is finite and does not depend on the order
+    # in which they are listed (a reduction that adds first and divides last overflows for SOME orders only)
+    return split_shards("random", N[tier], 16 if tier == "quick" else 32) + split_shards("mean_large", 60 if tier == "quick" else 6000, 2)
 
 
 def requirements(tier):
     r = {f"judged:{n}": 15 for n in NAMES}
     r.update({f"pref_judged:{n}": 5 for n in ["UPGrad", "DualProj", "AlignedMTL", "ConFIG", "Constant", "GradDrop"]})
-    r.update({"permutations_checked": 10000, "caller_owned_vector_checked": 200, "w_zero_row_with_per_row_vector": 15, "w_exhaustive_m4": 100, "w_m_ge_5": 50, "w_float32": 100})
+    r.update({"permutations_checked": 10000, "caller_owned_vector_checked": 200, "w_zero_row_with_per_row_vector": 15, "w_exhaustive_m4": 100, "w_m_ge_5": 50, "w_float32": 100, "w_mean_close_to_the_largest_finite_number": 40})
     if tier == "thorough":
         r["w_exhaustive_m5"] = 100
     return r
@@ -155,11 +157,49 @@ def check_case(case, ctx):
     ctx.sample({"J": np.round(J, 4).tolist(), "agg": case["agg"], "dtype": dname, "permutations": "all" if exh else 20, "class": case["class"]})
 
 
+def gen_mean_large(rng, i):
+    dname = "float32" if rng.random() < 0.5 else "float64"
+    m, n = int(rng.integers(2, 6)), int(rng.integers(1, 5))
+    J = rng.uniform(0.35, 0.95, size=(m, n)) * rng.choice([-1.0, 1.0], size=(m, n)) * float(torch.finfo(getattr(torch, dname)).max)
+    return {"J": J.tolist(), "class": "entries_close_to_the_largest_finite_number", "dtype": dname, "agg": {"name": "Mean"}, "mean_large": True}
+
+
+def check_mean_large(case, ctx):
+    dname = case["dtype"]
+    J64 = np.array(case["J"], dtype=np.float64).reshape(len(case["J"]), -1)
+    Jt = to_t(J64, dname)
+    J = as64(Jt)
+    m = J.shape[0]
+    big = float(np.abs(J).max())
+    exact = (J / m).sum(axis=0)  # float64 reference: every term is below max / m
+    vio = None
+    for perm in itertools.permutations(range(m)):
+        out, err, _ = E.run(case["agg"], Jt[list(perm)].contiguous(), seed=0)
+        ctx.count("permutations_checked")
+        if err is not None:
+            vio = ("mean_of_finite_rows_depends_on_their_order_or_overflows" if "non-finite" in repr(err) else "aggregator_raised",
+                   {"permutation": list(perm), "error": repr(err)[:200]})
+            break
+        if not np.isfinite(out).all() or not np.abs(out - exact).max() <= 16 * m * EPS[dname] * big:
+            vio = ("mean_of_finite_rows_depends_on_their_order_or_overflows", {"permutation": list(perm), "output": out.tolist(), "mean": exact.tolist()})
+            break
+    if vio:
+        ctx.violation(vio[0], case, vio[1])
+    ctx.count("w_mean_close_to_the_largest_finite_number")
+    ctx.evaluated(fingerprint(case), nontrivial=m >= 3)
+    ctx.sample({"J": J.tolist(), "agg": case["agg"], "dtype": dname, "permutations": "all", "class": case["class"]})
+
+
 def run_shard(shard, ctx):
+    if shard["kind"] == "mean_large":
+        run_cases(ctx, shard_rng(ctx.seed, ID, ctx.shard_index), shard["n"], gen_mean_large, check_mean_large)
+        return
     run_cases(ctx, shard_rng(ctx.seed, ID, ctx.shard_index), shard["n"], gen_case, check_case)
 
 
 def replay(case, ctx):
+    if case.get("mean_large"):
+        return check_mean_large(case, ctx)
     check_case(case, ctx)
 
 
